@@ -151,7 +151,10 @@ XML256TableTranscoder::transcodeTo( const   XMLCh* const    srcData
 
 bool XML256TableTranscoder::canTranscodeTo(const unsigned int toCheck)
 {
-    return (xlatOneTo(toCheck) != 0);
+    // the tables only cover the BMP; xlatOneTo takes an XMLCh and would truncate
+    if (toCheck > 0xFFFF)
+        return false;
+    return (xlatOneTo((XMLCh)toCheck) != 0);
 }
 
 
